@@ -1,4 +1,4 @@
-(** C06, frame: a session end touches nothing of a hold of another session (corrected statement [T_C06_frame']). *)
+(** C06, frame: a session end touches nothing of a hold of another session ([T_C06_frame]). *)
 From Coq Require Import Lia ZifyBool ZifyNat.
 From Ldlm Require Import Model.Base Model.Err Model.Sv Proofs.SvDefs Proofs.SeqLemmasKey
   Proofs.SvSessBase Proofs.SvSessThr Proofs.SvSessLk Proofs.SvSessDs Proofs.SvSessWit.
@@ -6,22 +6,8 @@ From RecordUpdate Require Import RecordSet.
 Import RecordSetNotations.
 Local Open Scope Z_scope.
 
-(** [T_C06_frame] of SvDefs.v is too strong in one direction: [slive s' n k → slive s n k] fails when the unit released
-    by the session end is handed to a parked Lock call of ANOTHER session — the key of that call becomes live by this step
-    (theorem [C06_frame_refuted] below: sessions A, B; lock n of size 1 held by A; B's Lock is parked; A's connection ends and
-    DestroySession's Unlock hands the unit to B's call). That is the intended behaviour (no existing hold of another session
-    is touched; a waiter is served). Corrected statement: an existing hold stays; a key is live afterwards only if it was live
-    before or belongs to a call that was parked on that lock; the lease-timer entry and the session entries of (n,k) are
-    untouched. *)
-Definition T_C06_frame' : Prop := ∀ cfg s tid t sid n k,
-  vreach cfg s → v_thr s !! tid = Some t → st_op t = SConnEnd sid →
-  (∀ tid' t' sid' z, v_thr s !! tid' = Some t' → acquirer t' sid' n k z → sid' ≠ sid) →
-  let s' := vstep cfg s (VRun tid) in
-  (slive s n k → slive s' n k) ∧
-  (slive s' n k → slive s n k ∨
-     ∃ tid' t' sid' z lt, v_thr s !! tid' = Some t' ∧ st_op t' = SLock sid' n k z lt ∧ st_pc t' = VWait ∧ ∃ c rest, st_pc t = VDsUnlock c rest) ∧
-  v_timers s' !! tkey n k = v_timers s !! tkey n k ∧
-  (∀ sid' z, entry_of s sid' (Clock n k z) ↔ entry_of s' sid' (Clock n k z)).
+(** [T_C06_frame] (SvDefs.v) is the corrected statement; the first version ([slive s n k ↔ slive s' n k]) is refuted at the
+    end of this file ([C06_frame_iff_refuted]). *)
 
 Lemma tm_remove_timers tk s : v_timers (tm_remove tk s).1 = delete tk (v_timers s).
 Proof.
@@ -33,18 +19,18 @@ Qed.
 Lemma ds_self_effect cfg s tid sid pc cn :
   let s' := vrun_thread cfg tid (SThread (SConnEnd sid) pc cn) s in
   (v_timers s' = v_timers s ∨ ∃ c rest, pc = VDsTmRemove (c :: rest) ∧ v_timers s' = delete (tkey (cl_name c) (cl_key c)) (v_timers s)) ∧
-  (v_sess s' = v_sess s ∨ (pc = VDsDestroy ∧ v_sess s' = delete sid (v_sess s))).
+  (v_sess s' = v_sess s ∨ ((pc = VDsDestroy ∨ (pc = VDsNoClear ∧ v_sess s !! sid = Some [])) ∧ v_sess s' = delete sid (v_sess s))).
 Proof.
   unfold vrun_thread. cbn [st_pc st_op st_cancel].
   destruct pc; try (split; by left).
   all: repeat case_match; subst; pair_norm; autorewrite with svframe; try (split; by left).
-  - (* destroy *) split; [by left|]. unfold sess_destroy. case_match; simpl; [|by left]. right. by rewrite vsave_v_sess.
-  - split; [by left|]. unfold sess_destroy. case_match; simpl; [|by left]. right. by rewrite vsave_v_sess.
+  - (* check-and-delete of an empty session *) split; [by left|]. unfold sess_destroy. case_match; simpl; [|by left]. right. rewrite vsave_v_sess. auto.
+  - (* destroy *) split; [by left|]. unfold sess_destroy. case_match; simpl; [|by left]. right. rewrite vsave_v_sess. auto.
   - split; [|by left]. right. eexists _, _. split; [done|]. apply tm_remove_timers.
   - split; [|by left]. right. eexists _, _. split; [done|]. apply tm_remove_timers.
 Qed.
 
-Theorem C06_frame'_from_inv : T_svinv_reach → T_C06_frame'.
+Theorem C06_frame_from_inv : T_svinv_reach → T_C06_frame.
 Proof.
   intros Hinv cfg s tid t sid n k Hr Ht Hop Hother s'. subst s'.
   pose proof (Hinv _ _ Hr) as HI. pose proof (ds_inv_reach Hinv _ _ Hr) as HD.
@@ -65,13 +51,13 @@ Proof.
     destruct (decide (tkey (cl_name c) (cl_key c) = tkey n k)) as [He|Hne]; [|by rewrite lookup_delete_ne].
     apply tkey_inj in He as [? ?]. exfalso. eapply (Hnot c); [left|done..].
   - intros sid' z. rewrite (vstep_run_lookup cfg s tid t (vi_not_crashed _ _ HI) Ht). destruct t as [op pc cn]. simpl in Hop. subst op.
-    unfold entry_of. destruct (ds_self_effect cfg s tid sid pc cn) as [_ [->|[-> ->]]]; [done|].
+    unfold entry_of. destruct (ds_self_effect cfg s tid sid pc cn) as [_ [->|[_ ->]]]; [done|].
     destruct (decide (sid' = sid)) as [->|Hne]; [|by rewrite lookup_delete_ne].
     rewrite lookup_delete. split; [|naive_solver]. intros He.
     destruct (vi_entry_owner _ _ HI sid (Clock n k z) He) as (tid0 & t0 & Ht0 & Hacq0 & _). simpl in Hacq0. exfalso. by eapply Hother.
 Qed.
 
-(** the counterexample to [T_C06_frame] as stated (direction "live after -> live before") *)
+(** the counterexample to the first version of [T_C06_frame] (direction "live after -> live before") *)
 Definition w_sidB : str := [x42].
 Definition w_kB : str := [x6b; x42].
 Definition frame_sched : list sitem :=
@@ -80,7 +66,7 @@ Definition frame_sched : list sitem :=
    VCall 2 (SLock w_sidB w_n w_kB 1 None); VRun 2;               (* B's Lock is parked *)
    VConnEnd w_sid; VRun 1000; VRun 1000; VRun 1000].             (* DestroySession of A up to lockMgr.Unlock *)
 
-Theorem C06_frame_refuted : ∃ cfg s tid t sid n k,
+Theorem C06_frame_iff_refuted : ∃ cfg s tid t sid n k,
   vreach cfg s ∧ v_thr s !! tid = Some t ∧ st_op t = SConnEnd sid ∧
   (∀ tid' t' sid' z, v_thr s !! tid' = Some t' → acquirer t' sid' n k z → sid' ≠ sid) ∧
   ¬ slive s n k ∧ slive (vstep cfg s (VRun tid)) n k.
